@@ -44,6 +44,8 @@ def cases(draw):
         "method": draw(st.sampled_from(["fba", "fba", "fba", "linear moma"])),
         "processes": draw(st.sampled_from([1, 1, 1, 2])),
         "threshold": draw(st.sampled_from([None, None, 0.5, 1e-3, 5])),
+        # genes that are already knocked out in the model the analysis is given (a knock-out background)
+        "background": draw(st.sampled_from([[], [], [0], [1], [0, 3], [2, 5]])),
     }
 
 
@@ -70,11 +72,20 @@ def check_case(case, ctx):
     if not universe:
         return {"nontrivial": False, "classes": ["no-entities"]}
     dl = model.genes if entity == "gene" else model.reactions
+    gids = [g["id"] for g in spec["genes"]]
+    bg = sorted({gids[i % len(gids)] for i in case.get("background") or []}) if gids else []
+    if bg:
+        # the model under analysis is the one with these genes non-functional: its reactions whose rule is false are closed,
+        # and a deletion closes every reaction whose rule is false without the background genes AND the deleted ones
+        for g in bg:
+            model.genes.get_by_id(g).knock_out()
+        spec = {**spec, "rxns": [({**r, "lb": 0, "ub": 0} if not gprtree.evaluate(r["gpr"], bg) else r) for r in spec["rxns"]]}
+        classes.append("~knock-out-background")
     wt, _ = oracles.fba(spec)
     before = observe.snapshot(model)
 
     def ko_result(ids):
-        kr = knocked_reactions(spec, ids) if entity == "gene" else list(ids)
+        kr = knocked_reactions(spec, set(ids) | set(bg)) if entity == "gene" else list(ids)
         res, _ = oracles.fba(spec, knocked=kr)
         return res, kr
 
